@@ -448,7 +448,13 @@ pub fn get_best_move_until_stop(
     continue_running: &AtomicBool,
     max_depth: Option<u8>,
 ) -> Option<Move> {
-    let mut found_move = None;
+    // Until the first iteration completes, fall back to any legal move, so that
+    // a search stopped right away still answers with a move if one exists
+    let mut found_move = {
+        let mut moves = ArrayVec::new();
+        game.clone().get_moves(&mut moves, true);
+        moves.first().copied()
+    };
 
     let mut history = [0; 64 * 12];
 
